@@ -691,4 +691,45 @@ U_TLOOP = Unit(P + '/taper-emitting-loops', ['taper1', 'taper2'], t_taper_loop, 
                canaries=[Canary('taper1-running-point-skips', 'taper1', _TaperSkipP, [P + '/taper1[emitting loop]/']),
                          Canary('taper2-running-point-skips', 'taper2', _TaperSkipP, [P + '/taper2[emitting loop]/'])])
 
-UNITS = [U_SEG, U_EQ, U_CURVE, U_ARC, U_ROT, U_WT, U_CT, U_HELIX, U_TLOOP]
+
+
+# ================================================================ taper1 / taper2: the effective lower limit
+def t_taper_minimum(eng):
+    """head slice (up to and including `min_t = ...`): the lower limit used for every piece is max(2.5 radii, minimum)"""
+    which = eng.choose(2)
+    q = ['taper1', 'taper2'][which]
+    n_ = P + '/' + q + '[effective minimum]/'
+    f = eng.get_fnode(q)
+    from pyvc.source import find_stmt
+    st = find_stmt(f, lambda x: isinstance(x, ast.Assign) and ast.unparse(x.targets[0]) == 'min_t' and x in f.body)
+    r, mt = fresh_real('r'), fresh_real('min_t')
+    eng.assume(b_and(r_cmp('>', r, 0), r_cmp('>=', mt, 0)))
+    env = {'r': r, 'min_t': mt}
+    eng.frames.append({'fref': eng.fref(q), 'env': env, 'qual': q, 'node': f})
+    try:
+        eng.exec_stmt(st, env)
+    finally:
+        eng.frames.pop()
+    lo = r_mul(Fraction('2.5'), r)
+    eng.oblige(n_ + 'is-max(2.5-radii,-requested-minimum)',
+               b_and(r_cmp('>=', env['min_t'], lo), r_cmp('>=', env['min_t'], mt),
+                     b_or(num_eq(env['min_t'], lo), num_eq(env['min_t'], mt))))
+    # and it is this value that guards the "too short" exit and the assertions (used below it, never re-assigned)
+    later = [x for x in ast.walk(f) if isinstance(x, ast.Assign) and any(ast.unparse(t) == 'min_t' for t in x.targets)]
+    eng.oblige(n_ + 'assigned-exactly-once', len(later) == 1)
+    eng.cover(q + '-minimum')
+
+
+class _MinOr(ast.NodeTransformer):
+    def visit_Assign(self, node):
+        if ast.unparse(node.targets[0]) == 'min_t':
+            node.value = ast.parse('min_t or 2.5 * r').body[0].value
+        return node
+
+
+U_TMIN = Unit(P + '/taper-effective-minimum', ['taper1', 'taper2'], t_taper_minimum, SCH,
+              slices={'taper1': 'the statement `min_t = ...`', 'taper2': 'the statement `min_t = ...`'},
+              canaries=[Canary('taper1-minimum-replaces-the-radius-floor', 'taper1', _MinOr, [P + '/taper1[effective minimum]/']),
+                        Canary('taper2-minimum-replaces-the-radius-floor', 'taper2', _MinOr, [P + '/taper2[effective minimum]/'])])
+
+UNITS = [U_SEG, U_EQ, U_CURVE, U_ARC, U_ROT, U_WT, U_CT, U_HELIX, U_TLOOP, U_TMIN]
